@@ -439,9 +439,40 @@ pub fn abs_variant(prog: &J, kind: &str, r: &mut Rng) -> Option<J> {
             *p.pointer_mut(&cp)? = json!({"c":"pcall","n":"zf","a":[arg],"neg":false});
             p["prules"].as_array_mut()?.push(json!({"n":"zf","ps":[pname],"lets":[],"b":[[body]]}));
         }
+        // the literal right-hand side of a clause handed to a parameterised rule as its argument:
+        // `q op <literal>`  ->  zf(<literal>)  with  rule zf(zp) { q op %zp }
+        "IL" => {
+            let cands: Vec<(usize, String)> = root_context_clause_pointers(&p)
+                .into_iter()
+                .filter(|(_, cp)| {
+                    let c = p.pointer(cp).unwrap();
+                    !cp.contains("/w/")
+                        && c["rhs"].as_array().and_then(|a| a.first()).map(|x| x["r"] == "val" && !has_float(&x["v"])).unwrap_or(false)
+                })
+                .collect();
+            if cands.is_empty() {
+                return None;
+            }
+            let (_ri, cp) = cands[r.below(cands.len())].clone();
+            let c = p.pointer(&cp)?.clone();
+            let mut body = c.clone();
+            body["rhs"] = json!([{"r":"q","q":[{"p":"var","n":"zp"}],"all":true}]);
+            let arg = c["rhs"][0].clone();
+            *p.pointer_mut(&cp)? = json!({"c":"pcall","n":"zf","a":[arg],"neg":false});
+            p["prules"].as_array_mut()?.push(json!({"n":"zf","ps":["zp"],"lets":[],"b":[[body]]}));
+        }
         _ => return None,
     }
     Some(p)
+}
+
+/// negative float literals cannot be written as call arguments
+fn has_float(v: &J) -> bool {
+    match v["t"].as_str() {
+        Some("flt") => true,
+        Some("list") | Some("map") => v["v"].as_array().map(|a| a.iter().any(has_float)).unwrap_or(false),
+        _ => false,
+    }
 }
 
 // ---------------------------------------------------------------------------------------------
